@@ -41,10 +41,20 @@ def _case(draw, tier):
     nodes = draw(progs.int_program(m, l, max_nodes=7 if tier == 'quick' else 14, heavy=False, awaits=True))
     sched = draw(progs.schedule(m))
     recv = draw(st.one_of(st.none(), st.lists(st.integers(0, m - 1), min_size=1, max_size=m, unique=True).map(sorted)))
-    return dict(m=m, t=t, prss=prss, l=l, seed=draw(st.integers(0, 2**20)), nodes=nodes, sched=sched,
+    case = dict(m=m, t=t, prss=prss, l=l, seed=draw(st.integers(0, 2**20)), nodes=nodes, sched=sched,
                 receivers=recv, no_barrier=draw(st.sampled_from([False, False, True])),
                 # outputs started but not awaited before shutdown: their messages must still all be consumed
                 out_mode=draw(st.sampled_from(['end', 'end', 'after_shutdown'])))
+    # parties started with different logging options (--no-log at some of them) and mpc.peek() in the program
+    if draw(st.integers(0, 2)) == 0:
+        case['no_log'] = draw(st.lists(st.booleans(), min_size=m, max_size=m))
+        sc = [i for i, nd in enumerate(nodes) if progs.is_scalar(nd)]
+        for nd in nodes:
+            if nd[0] == 'await' and nd[1] != 'sleep' and draw(st.booleans()):
+                nd[1] = 'peek'
+        if sc and not any(nd[0] == 'await' and nd[1] == 'peek' for nd in nodes):
+            nodes.append(['await', 'peek', sc[-1]])
+    return case
 
 
 def strategy(tier):
@@ -89,6 +99,8 @@ def run_case(case):
     feats = progs.program_features(case['nodes'], case['m'], case['t'])
     labels = [f"m={case['m']}", f"t={case['t']}", 'sched=' + case['sched']['mode'],
               'recv=' + ('all' if case.get('receivers') is None else 'subset')] + feats['ops']
+    if case.get('no_log') is not None:
+        labels.append('mixed-logging' if len(set(case['no_log'])) > 1 else 'uniform-logging')
     holder = {}
 
     def hook(sim):
